@@ -5,7 +5,7 @@
 # shared Gen/ files and evidence of /verif are not disturbed).  Prints one line per seed and writes
 # /verif/seeded/MATRIX.json.  Needs the Coq project to be built in /verif (the copy re-uses the .vo files).
 set -u
-W=/var/tmp/seedrun
+W=${XV_MATRIX_W:-/var/tmp/seedrun}
 rm -rf $W; mkdir -p $W
 rsync -a --exclude .git --exclude 'coq/Run/*' /verif/ $W/verif/
 git -C /repo worktree remove --force $W/repo 2>/dev/null
